@@ -1,35 +1,55 @@
 import McpModel.Base.Proto
-import McpModel.EventStore.Model
+import McpModel.EventStore.Monitor
 /-!
-Driver for E15: replays the harness's operation lines on the model and evaluates the C20 monitor
-(`after_refines_spec`, `bytes_bound`) on the *implementation's* observations.
-Payloads travel as `x<hex>`; their size is the byte length.
+Driver for E15: replays the harness's operation lines on the model and evaluates the C20 monitor on
+the *implementation's* observations.  Payloads travel as `x<hex>`; their size is the byte length.
+
+This file is the STRING LAYER only: token parser (`parseRec`, `parseObs`), renderer (`showObs`) and
+clause texts (`Clause.text`).  The model line is `EventStore.recStep` (Monitor.lean) rendered; the
+monitor is `EventStore.monStep` (Monitor.lean), bridged to the model by Bridge.lean
+(`monitor_accepts_model`) and to the property text by Sound.lean (`sound_<clause>`,
+`monitor_complete`).  The string layer is checked at run time on every record: the model's observation
+must survive rendering and parsing (`LIBDISC render/parse` otherwise).
 -/
 namespace EventStore
 open Proto
 
-def psz (p : String) : Nat := (p.length - 1) / 2
-
 structure DState where
   st : Option (Store String) := some init     -- none after a model-level panic
-  spec : List (Key × List String) := []        -- monitor: per-stream abstract log (independent of `st`)
-  lastApp : Nat := 0
-  maxSeen : Nat := defaultMaxBytes
+  mon : MState := {}                           -- the monitor's bookkeeping (independent of `st`)
 
-def showOut : Out String → String
+def showObs : Obs → String
   | .ok => "ok"
+  | .err => "err"
+  | .panic => "panic"
   | .items l => " ".intercalate ("items" :: l)
   | .purged => "purged"
   | .unknown => "unknown"
+  | .partialThenPurged => "partial-then-purged"
+  | .partialThenError => "partial-then-error"
   | .num n => s!"num {n}"
+  | .stat n m r => s!"stat {n} {m} {r}"
+  | .consistent => "consistent"
+  | .other s => s
 
-def specUpd (k : Key) (f : Option (List String) → Option (List String)) (sp : List (Key × List String)) :
-    List (Key × List String) :=
-  let cur := sp.lookup k
-  let rest := sp.filter (fun p => p.1 != k)
-  match f cur with
-  | none => rest
-  | some l => rest ++ [(k, l)]
+def parseObs (impl : String) : Obs :=
+  match words impl with
+  | ["ok"] => .ok
+  | ["err"] => .err
+  | ["panic"] => .panic
+  | ["purged"] => .purged
+  | ["unknown"] => .unknown
+  | ["partial-then-purged"] => .partialThenPurged
+  | ["partial-then-error"] => .partialThenError
+  | ["consistent"] => .consistent
+  | ["num", n] => match n.toNat? with
+    | some n => .num n
+    | none => .other impl
+  | ["stat", n, m, r] => match n.toNat?, m.toNat?, r.toNat? with
+    | some n, some m, some r => .stat n m r
+    | _, _, _ => .other impl
+  | "items" :: l => .items l
+  | _ => .other impl
 
 def parseOp (toks : List String) : Option (Op String) :=
   match toks with
@@ -41,78 +61,46 @@ def parseOp (toks : List String) : Option (Op String) :=
   | ["maxbytes"] => some .maxBytes
   | _ => none
 
-/-- The monitor: is the implementation's answer allowed by the abstract specification? -/
-def monitor (d : DState) (op : Op String) (impl : String) : Option String :=
-  match op with
-  | .after k i =>
-    if i < -1 then none else
-    match d.spec.lookup k with
-    | none => if impl == "unknown" then none else some "after_refines_spec: unknown stream must be reported"
-    | some log =>
-      if impl == "purged" then none
-      else if impl == showOut (.items (log.drop (i + 1).toNat)) then none
-      else some "after_refines_spec: neither the purge error nor exactly the payloads appended after the index"
-  | _ => none
+def parseRec (toks : List String) : Option Rec :=
+  match toks with
+  | ["concurrent-accounting"] => some .concurrent
+  | ["stat"] => some .stat
+  | ["afteri", a, b, i, _k, a2, b2, p] =>
+    match parseInt? i, p.startsWith "x" with
+    | some i, true => some (.afteri (a, b) i (a2, b2) p)
+    | _, _ => none
+  | _ => (parseOp toks).map .op
+
+/-! ### Clause texts (the monitor itself is Monitor.lean) -/
+
+def Clause.text : Clause → String
+  | .afterUnknown => "after_refines_spec: unknown stream must be reported"
+  | .afterWrong => "after_refines_spec: neither the purge error nor exactly the payloads appended after the index"
+  | .afterPurgedNothing => "after_refines_spec: the purge error although no payload lies after the index (nothing can have been evicted)"
+  | .bytesBound => "bytes_bound: retained bytes exceed max by more than the latest item"
+  | .badStat => "bad-stat"
+  | .concurrent => "accounting: nBytes differs from the retained data after concurrent use"
+  | .panicked => "no_panic: an exported method of the store panicked"
+
+/-- Run-time self-check of the string layer: the model's observation must survive rendering and parsing. -/
+def selfCheck (m : Obs) : Option String :=
+  if parseObs (showObs m) == m then none
+  else some "LIBDISC render/parse: the model's observation does not survive the string layer"
 
 def engine : Engine DState where
   init := {}
   step d toks impl :=
     match toks with
     | ["reset"] => ({}, { model := "ok" })
-    | ["concurrent-accounting"] =>
-      let viol := if impl == "consistent" then none
-        else some "accounting: nBytes differs from the retained data after concurrent use"
-      (d, { model := "consistent", violated := viol })
-    | ["stat"] =>
-      -- implementation reports: stat <nBytes> <maxBytes> <retained bytes counted from the data>
-      let model := match d.st with
-        | some s => s!"stat {s.nBytes} {s.maxBytes} {s.nBytes}"
-        | none => "panic"
-      let viol := match words impl with
-        | ["stat", _, m, r] =>
-          match m.toNat?, r.toNat? with
-          | some m, some r => if r ≤ m + d.lastApp then none else some "bytes_bound: retained bytes exceed max by more than the latest item"
-          | _, _ => some "bad-stat"
-        | _ => some "bad-stat"
-      (d, { model := model, violated := viol })
-    | ["afteri", a, b, i, _k, a2, b2, p] =>
-      -- After(a,b,i) with an Append(a2,b2,p) issued from inside the iteration: the iterator delivers what
-      -- was retained when it started (After copies under the lock), then the append takes effect.
-      match parseInt? i, p.startsWith "x" with
-      | some i, true =>
-        let op1 : Op String := .after (a, b) i
-        let op2 : Op String := .append (a2, b2) p
-        let viol := monitor d op1 impl
-        let (st', model) := match d.st with
-          | none => (none, "panic")
-          | some s => match step psz s op1 with
-            | none => (none, "panic")
-            | some (s1, o) => match step psz s1 op2 with
-              | none => (none, "panic")
-              | some (s2, _) => (some s2, showOut o)
-        let spec' := specUpd (a2, b2) (fun c => some (c.getD [] ++ [p])) d.spec
-        ({ d with st := st', spec := spec', lastApp := psz p }, { model := model, violated := viol })
-      | _, _ => (d, { model := "bad-op" })
     | _ =>
-      match parseOp toks with
+      match parseRec toks with
       | none => (d, { model := "bad-op" })
-      | some op =>
-        let viol := monitor d op impl
-        let (st', model) := match d.st with
-          | none => (none, "panic")
-          | some s => match step psz s op with
-            | none => (none, "panic")
-            | some (s', o) => (some s', showOut o)
-        let spec' := match op with
-          | .open k => specUpd k (fun c => some (c.getD [])) d.spec
-          | .append k p => specUpd k (fun c => some (c.getD [] ++ [p])) d.spec
-          | .closed sess => d.spec.filter (fun q => q.1.1 != sess)
-          | _ => d.spec
-        let lastApp' := match op with
-          | .append _ p => psz p
-          | .setMax _ => 0
-          | _ => d.lastApp
-        ({ d with st := st', spec := spec', lastApp := lastApp' }, { model := model, violated := viol })
+      | some r =>
+        let (mon', cl) := monStep d.mon r (parseObs impl)
+        let viol := cl.map Clause.text
+        match d.st.bind (recStep · r) with
+        | none => ({ st := none, mon := mon' }, { model := "panic", violated := viol })
+        | some (s', m) => ({ st := some s', mon := mon' }, { model := showObs m, violated := viol <|> selfCheck m })
 
 end EventStore
 
